@@ -70,6 +70,9 @@ class Report:
         self.obligations.append((rule, str(instance), str(how), bool(nontrivial)))
 
     def violation(self, rule, at, construct, reason, file=None, line=None, witness=None):
+        for f in self.findings:
+            if (f.rule, f.at, f.construct) == (rule, at, construct) and (f.witness == witness or len([g for g in self.findings if (g.rule, g.at, g.construct) == (rule, at, construct)]) >= 3):
+                return  # same instance already reported (or enough witnesses of it)
         self.findings.append(Finding(rule, at, construct, reason, file, line, witness))
 
     def undecide(self, what):
